@@ -1,12 +1,15 @@
 package main
 
 import (
+	"crypto/sha256"
 	"fmt"
+	"math/rand"
 	"os"
 	"strings"
 
 	"oss.terrastruct.com/d2/d2compiler"
 
+	"verifharness/internal/gen"
 	"verifharness/internal/proj"
 )
 
@@ -35,4 +38,19 @@ func driveShow(c *Ctx) error {
 		fmt.Print(proj.Digest(proj.Boards(g)))
 	}
 	return nil
+}
+
+// gendump: development aid. vdrive gendump -out DIR writes DIR/gendump.txt with one hash per (mode, seed): used to
+// check that a change to the generator leaves the fixed input spaces of the existing modes untouched.
+func init() { register("gendump", driveGenDump) }
+
+func driveGenDump(c *Ctx) error {
+	var sb strings.Builder
+	for _, m := range strings.Split(c.Args["modes"], ",") {
+		for seed := int64(1); seed <= 1200; seed++ {
+			d := gen.Generate(rand.New(rand.NewSource(seed)), pipeOpts(m))
+			fmt.Fprintf(&sb, "%s %d %x\n", m, seed, sha256.Sum256([]byte(d.Text)))
+		}
+	}
+	return os.WriteFile(c.Out+"/gendump.txt", []byte(sb.String()), 0644)
 }
